@@ -21,6 +21,8 @@ import (
 //	hang     accepts, reads the request, never answers (until the peer goes away)
 //	reset    sends a response head announcing 1000 bytes, then resets the connection
 //	short    sends the head announcing 1000 bytes and 10 bytes, then closes
+//	short-chunked  sends a chunked response head and one 3000-byte chunk, then closes without the
+//	         terminating chunk
 //	garbage  answers with bytes that are not HTTP
 //	slow     sends the head announcing 1000 bytes and 10 bytes, stalls for Stall, then closes
 //	big      sends a 5 MiB body (for aborting downloads)
@@ -228,6 +230,10 @@ func (fb *FaultBackend) serve(c net.Conn, mode string, stall time.Duration) {
 			return
 		case "short":
 			fmt.Fprintf(c, "HTTP/1.1 200 OK\r\nContent-Type: text/plain\r\nContent-Length: 1000\r\n\r\n0123456789")
+			return
+		case "short-chunked":
+			fmt.Fprintf(c, "HTTP/1.1 200 OK\r\nContent-Type: text/plain\r\nTransfer-Encoding: chunked\r\n\r\nbb8\r\n%s\r\n", strings.Repeat("x", 3000))
+			time.Sleep(150 * time.Millisecond) // (lets the proxy pass the chunk on before the connection goes)
 			return
 		case "garbage":
 			fmt.Fprintf(c, "BLAH BLAH BLAH\r\n\x00\x01\x02\r\n\r\n")
